@@ -59,6 +59,36 @@ fn sess_api(g: &mut Gen) {
         }
         g.line(&format!("{} needs_tick", Gen::ep(1 - who)));
     }
+    // the peer closes while this side is at each stage of the handshake (one delivery per step)
+    for steps in 0..7usize {
+        for closer in 0..2usize {
+            g.line("new");
+            g.connect(0);
+            let mut done = 0;
+            'outer: for _ in 0..8 {
+                for from in 0..2 {
+                    if let Some(&n) = g.undelivered(from).first() {
+                        if done == steps {
+                            break 'outer;
+                        }
+                        g.deliver(from, n);
+                        done += 1;
+                    }
+                }
+            }
+            let k = g.w.eps[closer].kind();
+            if k == "Disconnected" || k == "Unconnected" || g.w.eps[closer].dead {
+                continue;
+            }
+            g.line(&format!("{} disconnect 676f6e65", Gen::ep(closer)));
+            if let Some(&n) = g.undelivered(closer).last() {
+                if !g.w.eps[1 - closer].dead {
+                    g.deliver(closer, n);
+                }
+            }
+            g.line(&format!("{} needs_tick", Gen::ep(1 - closer)));
+        }
+    }
     if !IS7 {
         g.line("new");
         g.line("a newaccept 12345678");
@@ -328,7 +358,8 @@ fn sess_wrap(g: &mut Gen, total: usize) {
     while sent < total && alive(g) {
         let batch = 40 + g.rng.below(80) as usize;
         for k in 0..batch {
-            let i = if g.rng.chance(4, 5) { 0 } else { 1 };
+            // almost everything from `a`, so that its sequence numbers really wrap (> 1024 chunks)
+            let i = if g.rng.chance(19, 20) { 0 } else { 1 };
             let data = vec![(sent + k) as u8, ((sent + k) >> 8) as u8, g.rng.next() as u8];
             let len = 1 + g.rng.below(3) as usize;
             send(g, i, true, &data[..len]);
@@ -393,6 +424,6 @@ fn gen_all(tier: &str, seed: u64, out: &mut dyn std::io::Write) {
         sess_foreign(&mut g, n_ops / 2);
     }
     for _ in 0..n_wrap {
-        sess_wrap(&mut g, 1150);
+        sess_wrap(&mut g, 1250);
     }
 }
